@@ -41,6 +41,8 @@ func init() {
 			{ID: "C08.R11", Text: "the checkpoint written after a rollback carries the new branch: every persisted document is built field by field from the tracked offset at save time, never kept from an earlier save (same rule as C02.R2)", Run: c02r2},
 			{ID: "C08.R12", Text: "every document event above F is shown or the client stops: a replayed snapshot announcement is installed whenever the gate passes, under no other condition (same rule as C06.R7), and an event outside the announced snapshot is fatal, never skipped (same rule as C06.R2)", Run: func(c *Ctx, id string) { markerInstall(c, id); c06r2(c, id) }},
 			{ID: "C08.R13", Text: "a re-open that is answered with a rollback starts from the position settled by then: openStream reads offsets[vbID] when it is called, every attempt anew (same rule as C12.R3)", Run: c12r3},
+			{ID: "C08.R14", Text: "the catch-up point is the refused request position: Observer.SetCatchup / SetVbUUID are called only from the completion of the stream requests of the client (same rule as C03.R19)", Run: observerStateSetters},
+			{ID: "C08.R15", Text: "a vBucket whose re-open is still in flight counts as streaming: the end listener counts down only for final ends (same rule as C12.R1)", Run: c12r1},
 			{ID: "C08.R5", Text: "catch-up filter: skip ⇔ need ∧ seq ≤ F; need' = need ∧ seq < F; SetCatchup stores F and arms the filter", Run: c08r5},
 		},
 	})
@@ -59,8 +61,8 @@ func rollbackSite(c *Ctx, id string) (open *ssa.Function, site *ssa.Call, rb *ss
 			if f == nil || !w.inModule(f) {
 				return
 			}
-			for _, a := range call.Common().Args {
-				if strings.Contains(w.Origin(a), "gocbcore.DCPRollbackError)#0.SeqNo") {
+			for _, v := range vparams(f) {
+				if a := argOfVParam(call.Common(), f, v); a != nil && strings.Contains(w.Origin(a), "gocbcore.DCPRollbackError)#0.SeqNo") {
 					open, site, rb = fn, call, f
 				}
 			}
@@ -68,6 +70,38 @@ func rollbackSite(c *Ctx, id string) (open *ssa.Function, site *ssa.Call, rb *ss
 	}
 	c.need(rb != nil, id, "rollback path called from Client.OpenStream with DCPRollbackError.SeqNo")
 	return
+}
+
+// rbInputs: the formal inputs of the rollback path by role — parameters or fields of a parameter bundle: the vBucket
+// id (uint16), the observer, the request options, and the three sequence numbers told apart by their names (failed /
+// rollback / latest; §1.2 lists them among the names used as anchors).
+type rbIn struct{ vb, failed, rollback, latest, obs, opts *vparam }
+
+func rbInputs(rb *ssa.Function) rbIn {
+	var r rbIn
+	for _, v := range vparams(rb) {
+		v := v
+		last := v.Name()
+		if i := strings.LastIndex(last, "."); i >= 0 {
+			last = last[i+1:]
+		}
+		low := strings.ToLower(last)
+		switch {
+		case isUint16(v.Type()):
+			r.vb = &v
+		case recvTypeName(v.Type()) == "Observer":
+			r.obs = &v
+		case recvTypeName(v.Type()) == "OpenStreamOptions":
+			r.opts = &v
+		case strings.Contains(low, "failed"):
+			r.failed = &v
+		case strings.Contains(low, "rollback"):
+			r.rollback = &v
+		case strings.Contains(low, "latest"):
+			r.latest = &v
+		}
+	}
+	return r
 }
 
 func c08r1(c *Ctx, id string) {
@@ -102,46 +136,40 @@ func c08r1(c *Ctx, id string) {
 		}
 	}
 	c.Check(ret, id, "result@"+fname(open), site.Pos(), "the rollback path's result is returned", "the result of the rollback path is not returned: a vBucket that cannot be reopened would be silently left out")
-	want := map[string]string{}
-	for _, p := range rb.Params[1:] {
-		n := p.Name()
-		low := strings.ToLower(n)
-		switch {
-		case isUint16(p.Type()):
-			for _, q := range open.Params {
-				if isUint16(q.Type()) {
-					want[n] = "param(" + q.Name() + ")"
-				}
-			}
-		case strings.Contains(low, "failed"):
-			want[n] = o + ".SeqNo"
-		case strings.Contains(low, "rollback"):
-			want[n] = "assert(*?,gocbcore.DCPRollbackError)#0.SeqNo"
-		case strings.Contains(low, "latest"):
-			want[n] = o + ".LatestSeqNo"
-		case recvTypeName(p.Type()) == "Observer":
-			for _, q := range open.Params {
-				if recvTypeName(q.Type()) == "Observer" {
-					want[n] = "param(" + q.Name() + ")"
-				}
-			}
-		}
-	}
-	if len(want) < 5 {
-		c.Undecided(id, "params@"+fname(rb), rb.Pos(), "cannot classify the rollback path's parameters (failed/rollback/latest seqNo, vbID, observer): %v", want)
+	ri := rbInputs(rb)
+	if ri.vb == nil || ri.failed == nil || ri.rollback == nil || ri.latest == nil || ri.obs == nil {
+		c.Undecided(id, "params@"+fname(rb), rb.Pos(), "cannot classify the rollback path's inputs (failed/rollback/latest seqNo, vbID, observer)")
 		return
 	}
-	for _, p := range rb.Params[1:] {
-		wv, ok := want[p.Name()]
-		if !ok {
-			continue
+	type wantArg struct {
+		v    *vparam
+		want string
+	}
+	var wants []wantArg
+	for _, q := range open.Params {
+		if isUint16(q.Type()) {
+			wants = append(wants, wantArg{ri.vb, "param(" + q.Name() + ")"})
 		}
-		got := w.Origin(argOfParam(cc, rb, p))
-		match := got == wv
-		if strings.HasPrefix(wv, "assert(*?") {
+		if recvTypeName(q.Type()) == "Observer" {
+			wants = append(wants, wantArg{ri.obs, "param(" + q.Name() + ")"})
+		}
+	}
+	wants = append(wants, wantArg{ri.failed, o + ".SeqNo"}, wantArg{ri.rollback, "assert(*?,gocbcore.DCPRollbackError)#0.SeqNo"}, wantArg{ri.latest, o + ".LatestSeqNo"})
+	if len(wants) < 5 {
+		c.Undecided(id, "params@"+fname(rb), rb.Pos(), "cannot match the rollback path's inputs with those of OpenStream")
+		return
+	}
+	for _, wa := range wants {
+		got := w.Origin(argOfVParam(cc, rb, *wa.v))
+		match := got == wa.want
+		if strings.HasPrefix(wa.want, "assert(*?") {
 			match = strings.HasPrefix(got, "assert(") && strings.HasSuffix(got, ",gocbcore.DCPRollbackError)#0.SeqNo")
 		}
-		c.Check(match, id, "arg:"+p.Name(), site.Pos(), p.Name()+" ← "+got, p.Name()+" ← "+got+", expected "+wv)
+		name := wa.v.Name()
+		if i := strings.LastIndex(name, "."); i >= 0 {
+			name = name[i+1:]
+		}
+		c.Check(match, id, "arg:"+name, site.Pos(), name+" ← "+got, name+" ← "+got+", expected "+wa.want)
 	}
 	// same options value as the first request
 	var firstOpts string
@@ -150,34 +178,18 @@ func c08r1(c *Ctx, id string) {
 			firstOpts = w.Origin(argByName(cc2, "opts"))
 		}
 	})
-	for _, p := range rb.Params[1:] {
-		if recvTypeName(p.Type()) == "OpenStreamOptions" {
-			got := w.Origin(argOfParam(cc, rb, p))
-			c.Check(got == firstOpts && got != "", id, "arg:"+p.Name(), site.Pos(), "same options value as the first request", "options "+got+" differ from the first request's "+firstOpts)
-		}
+	if ri.opts != nil {
+		got := w.Origin(argOfVParam(cc, rb, *ri.opts))
+		c.Check(got == firstOpts && got != "", id, "arg:"+ri.opts.P.Name(), site.Pos(), "same options value as the first request", "options "+got+" differ from the first request's "+firstOpts)
 	}
 }
 
 func c08r2(c *Ctx, id string) {
 	w := c.W
 	_, _, rb := rollbackSite(c, id)
-	var pRb, pLatest, pVb, pObs, pOpts *ssa.Parameter
-	for _, p := range rb.Params[1:] {
-		low := strings.ToLower(p.Name())
-		switch {
-		case isUint16(p.Type()):
-			pVb = p
-		case strings.Contains(low, "rollback"):
-			pRb = p
-		case strings.Contains(low, "latest"):
-			pLatest = p
-		case recvTypeName(p.Type()) == "Observer":
-			pObs = p
-		case recvTypeName(p.Type()) == "OpenStreamOptions":
-			pOpts = p
-		}
-	}
-	c.need(pRb != nil && pLatest != nil && pVb != nil && pObs != nil && pOpts != nil, id, "parameters of the rollback path")
+	ri := rbInputs(rb)
+	c.need(ri.rollback != nil && ri.latest != nil && ri.vb != nil && ri.obs != nil && ri.opts != nil, id, "parameters of the rollback path")
+	pRb, pLatest, pVb, pObs, pOpts := ri.rollback, ri.latest, ri.vb, ri.obs, ri.opts
 	n := 0
 	allInstrs(rb, func(in ssa.Instruction) {
 		cc := callOf(in)
@@ -186,8 +198,8 @@ func c08r2(c *Ctx, id string) {
 		}
 		n++
 		want := map[string]string{
-			"vbID": "param(" + pVb.Name() + ")", "startSeqNo": "param(" + pRb.Name() + ")", "snapStartSeqNo": "param(" + pRb.Name() + ")",
-			"snapEndSeqNo": "param(" + pRb.Name() + ")", "endSeqNo": "param(" + pLatest.Name() + ")", "evtHandler": "param(" + pObs.Name() + ")", "opts": "param(" + pOpts.Name() + ")",
+			"vbID": pVb.Term(), "startSeqNo": pRb.Term(), "snapStartSeqNo": pRb.Term(),
+			"snapEndSeqNo": pRb.Term(), "endSeqNo": pLatest.Term(), "evtHandler": pObs.Term(), "opts": pOpts.Term(),
 		}
 		for _, k := range sortedKeys(want) {
 			got := w.Origin(argByName(cc, k))
@@ -202,12 +214,7 @@ func c08r2(c *Ctx, id string) {
 func c08r3(c *Ctx, id string) {
 	w := c.W
 	_, _, rb := rollbackSite(c, id)
-	var pRb *ssa.Parameter
-	for _, p := range rb.Params[1:] {
-		if strings.Contains(strings.ToLower(p.Name()), "rollback") {
-			pRb = p
-		}
-	}
+	pRb := rbInputs(rb).rollback
 	c.need(pRb != nil, id, "rollbackSeqNo parameter")
 	var entryT types.Type
 	for _, fn := range w.implsOf("couchbase", "Client", "GetFailOverLogs") {
@@ -274,12 +281,7 @@ func c08r3(c *Ctx, id string) {
 func c08r4(c *Ctx, id string) {
 	w := c.W
 	_, _, rb := rollbackSite(c, id)
-	var pFailed *ssa.Parameter
-	for _, p := range rb.Params[1:] {
-		if strings.Contains(strings.ToLower(p.Name()), "failed") {
-			pFailed = p
-		}
-	}
+	pFailed := rbInputs(rb).failed
 	c.need(pFailed != nil, id, "failedSeqNo parameter")
 	n := 0
 	for _, f := range withAnon(rb) {
@@ -298,8 +300,8 @@ func c08r4(c *Ctx, id string) {
 			}
 			okG := errP != nil && errGuard(in.Block(), true, func(v ssa.Value) bool { return v == ssa.Value(errP) })
 			got := w.Origin(cc.Args[0])
-			c.Check(okG && got == "param("+pFailed.Name()+")", id, "setcatchup@"+fname(f), in.Pos(), "SetCatchup("+got+") under err==nil",
-				fmt.Sprintf("SetCatchup(%s) (under err==nil: %v), expected the already-checkpointed position param(%s) on success only", got, okG, pFailed.Name()))
+			c.Check(okG && got == pFailed.Term(), id, "setcatchup@"+fname(f), in.Pos(), "SetCatchup("+got+") under err==nil",
+				fmt.Sprintf("SetCatchup(%s) (under err==nil: %v), expected the already-checkpointed position %s on success only", got, okG, pFailed.Term()))
 		})
 	}
 	if n != 1 {
